@@ -25,7 +25,8 @@ class RewardScaler:
         # Score scaling
         self.update(scores)
         tensor_to_kwargs = dict(dtype=scores.dtype, device=scores.device)
-        std = (self.M2 / (self.count - 1)).float().sqrt()
+        # rounding can make M2 slightly negative when all values seen so far are equal: clamp, the variance is >= 0
+        std = (self.M2 / (self.count - 1)).float().clamp(min=0).sqrt()
         score_scaling_factor = std.to(**tensor_to_kwargs) + torch.finfo(scores.dtype).eps
         if self.scale == "norm":
             scores = (scores - self.mean.to(**tensor_to_kwargs)) / score_scaling_factor
